@@ -30,6 +30,7 @@ type Options struct {
 	Debug   bool // utils.DebugFlags (the `debug` command)
 	Unpack  bool // -u
 	Object  bool // -o
+	Dot     string // -g <path>: also draw the automaton (the external dot program is not installed; the graph text is printed)
 }
 
 type Result struct {
@@ -103,7 +104,10 @@ func setFlags(o Options) {
 	utils.ObjectMode = o.Object
 	utils.HttpDebug = false
 	utils.DebugPackTab = false
-	utils.GenDotGraph = false
+	utils.GenDotGraph = o.Dot != ""
+	if o.Dot != "" {
+		utils.GenDotPath = o.Dot
+	}
 }
 
 func guarded(o Options, f func()) (res Result) {
